@@ -2,6 +2,45 @@
 (or a list of `edits`) applied to a scratch copy of the repository."""
 
 MUTANTS = [
+    # ---- round 7 shapes: aliasing, refusals, magnitude, multiplicity ------------------------------------------------
+    dict(id='al-add-same-epoch-self', props=['C09', 'C11'], file='geodepy/constants.py',
+         old="""        if type(other) == date:
+            timediff = (other - self.ref_epoch).days/365.25
+""",
+         new="""        if type(other) == date:
+            if other == self.ref_epoch:
+                return self
+            timediff = (other - self.ref_epoch).days/365.25
+""", note='set + its own epoch hands back the shipped constant itself'),
+    dict(id='al-notation-self', props=['C15'], file='geodepy/coord.py',
+         old="""            return CoordGeo(self.lat, self.lon, self.ell_ht, self.orth_ht)""",
+         new="""            return self""", note='notation() in the same notation returns the source object'),
+    dict(id='al-instht-sort-inplace', props=['C09'], file='geodepy/survey.py',
+         old="""    if len(vert_list) < 3:
+        raise ValueError('ValueError: 3 or more vertical angles required')
+    vert_list = sorted(vert_list, reverse=True)""",
+         new="""    vert_list.sort(reverse=True)
+    if len(vert_list) < 3:
+        raise ValueError('ValueError: 3 or more vertical angles required')""",
+         note='caller list sorted in place, also on the path that refuses the list'),
+    dict(id='al-neg-dec-float-base', props=['C12'], file='geodepy/angles.py',
+         old="""    def __neg__(self):
+        return DECAngle(-self.dec())""",
+         new="""    def __neg__(self):
+        r = DECAngle(0.0)
+        r.dec_angle = -self.dec()
+        return r""", note='negated DECAngle with the right field and a float base of zero'),
+    dict(id='mg-add-round-5', props=['C07'], file='geodepy/constants.py',
+         old="""                                  round(self.tx + (self.d_tx * timediff), 8),""",
+         new="""                                  round(self.tx + (self.d_tx * timediff), 8 if abs(self.tx) < 100 else 5),""",
+         note='large translations propagated to 5 decimals only'),
+    dict(id='mg-vincdir-short', props=['C04'], file='geodepy/geodesy.py',
+         old="""    azimuth1to2 = radians(angular_typecheck(azimuth1to2))
+""",
+         new="""    if 0 < ell_dist < 1e-3:
+        return lat1, lon1, (angular_typecheck(azimuth1to2) + 180) % 360
+    azimuth1to2 = radians(angular_typecheck(azimuth1to2))
+""", note='sub-millimetre lines answered without the geodesic'),
     # ---- C01 / C02 / C10: Transverse Mercator ------------------------------------------------------------------
     dict(id='tm-alpha-digit', props=['C01'], file='geodepy/convert.py', old='+ 101606400))', new='+ 101606500))',
          note='one digit of an alpha coefficient (n^1 term of a2: 5 mm)'),
